@@ -56,7 +56,9 @@ lemma weightsAt_scalarize (d : V) (o : W) (args : List (Arg V W)) (idx jdx : Lis
       | nil => simp [scalarize, weightsAt, ih]
       | cons i idx => simp [scalarize, weightsAt, ih]
 
-/-- **Ensemble member `idx` equals the simulation run with the scalar values it sees**: the scalar run has a single
+/-- (By construction of the model — the bridge from the code path is `unpack_broadcast_eq_argsAt` /
+`ensemble_from_unpacked` above and `applyAll_reverse` / `compose_reverse_ok` for composed transforms.)
+**Ensemble member `idx` equals the simulation run with the scalar values it sees**: the scalar run has a single
 member, whose value is the value part of member `idx` of the ensemble (for every kernel `f`); the ensemble member
 additionally carries the weights of its distribution values. -/
 theorem member_eq_scalar_run (d : V) (o : W) (f : List V → R) (args : List (Arg V W)) (k : Nat)
@@ -187,6 +189,53 @@ theorem unpack_axes (args : List (Arg V W)) (baseDims : Nat) :
         rcases hu with rfl | hu
         · injection hq with h1 h2 h3; subst h1; exact h2.symm
         · exact ih (i + 1) u hu a' ex vs hq
+
+/-! ### bridge: the arrays `_unpack_distributions` returns, read by numpy broadcasting, are what `evalEnsemble` evaluates -/
+
+lemma unpackLoop_broadcast (d : V) (numNew : Nat) (base : List Nat) (args : List (Arg V W)) (pre idx : List Nat)
+    (hlen : (ensembleShape args).length ≤ idx.length) :
+    (unpackLoop numNew base pre.length args).map (fun u => broadcastAt d u (pre ++ idx)) = argsAt d args idx := by
+  induction args generalizing pre idx with
+  | nil => rfl
+  | cons a rest ih =>
+    cases a with
+    | scalar v =>
+      have h := ih pre idx (by simpa [ensembleShape] using hlen)
+      simp only [unpackLoop, List.map_cons, argsAt]
+      rw [h]; rfl
+    | dist vs ws =>
+      cases idx with
+      | nil => simp [ensembleShape] at hlen
+      | cons j idx =>
+        have h := ih (pre ++ [j]) idx (by simp only [ensembleShape, List.filterMap_cons, List.length_cons] at hlen ⊢; omega)
+        simp only [List.length_append, List.length_cons, List.length_nil, List.append_assoc, List.cons_append,
+          List.nil_append] at h
+        simp only [unpackLoop, List.map_cons, argsAt]
+        rw [h]
+        congr 1
+        simp [broadcastAt, List.getD_eq_getElem?_getD]
+
+/-- **From the code path to the member**: evaluating a pointwise kernel on the arrays returned by
+`_unpack_distributions` (modelled by `unpack`: the k-th distribution on new axis k, expanded elsewhere), read at ensemble
+multi-index `idx` with numpy's broadcasting rule (`broadcastAt`: an axis of size 1 ignores the index), gives exactly the
+scalar arguments `argsAt idx` — distribution `k` contributes `values_k[idx_k]`, scalars themselves. -/
+theorem unpack_broadcast_eq_argsAt (d : V) (args : List (Arg V W)) (baseDims : Nat) (idx : List Nat)
+    (hlen : (ensembleShape args).length ≤ idx.length) :
+    (unpack args baseDims).map (fun u => broadcastAt d u idx) = argsAt d args idx := by
+  have := unpackLoop_broadcast d (args.filter Arg.isDist).length ((List.range baseDims).map (· + (args.filter Arg.isDist).length))
+    args [] idx hlen
+  simpa [unpack] using this
+
+/-- … hence the ensemble array defined through the unpacked, broadcast arguments is `evalEnsemble`: member `idx` is the
+kernel on the broadcast values, and (with `member_eq_scalar_run`) the run with those scalars. -/
+theorem ensemble_from_unpacked (d : V) (o : W) (f : List V → R) (args : List (Arg V W)) (baseDims : Nat) :
+    (memberIndices args).map (fun idx => (weightsAt o args idx, f ((unpack args baseDims).map fun u => broadcastAt d u idx)))
+      = evalEnsemble d o f args := by
+  unfold evalEnsemble
+  apply List.map_congr_left
+  intro idx hidx
+  have hl : idx.length = (ensembleShape args).length := ((mem_memberIndices args idx).1 hidx).length_eq
+  rw [unpack_broadcast_eq_argsAt d args baseDims idx (by omega)]
 
 /-! ### partitioned ensembles (lazy evaluation): a block sees the values of its slice -/
 
@@ -367,6 +416,42 @@ theorem applyAll_wrong_order_counterexample :
 
 example : applyAll ["x", "y"] ([["tilt_x"], ["C10", "C30"], ["semiangle_cutoff"]] : List (List String)).reverse
     = ["tilt_x", "C10", "C30", "semiangle_cutoff", "x", "y"] := by decide
+
+/-! ### averaged axes versus the weighted mean of the statement -/
+
+/-- With unit weights the code's reduction (arithmetic mean of the weighted members) *is* the weighted mean. -/
+theorem mean_eq_weightedMean_of_unit_weights (fs : List Rat) (hne : fs ≠ []) :
+    meanList (List.zipWith (· * ·) (List.replicate fs.length 1) fs) = weightedMean (List.replicate fs.length 1) fs := by
+  have key : ∀ l : List Rat, List.zipWith (· * ·) (List.replicate l.length (1 : Rat)) l = l := by
+    intro l
+    induction l with
+    | nil => rfl
+    | cons x xs ih => simp [List.replicate_succ, ih]
+  have hs : (List.replicate fs.length (1 : Rat)).sum = (fs.length : Rat) := by
+    induction fs with
+    | nil => rfl
+    | cons x xs _ => simp [List.sum_replicate]
+  rw [weightedMean, key fs, hs]; simp [meanList, foldl_add_eq_sum]
+
+/-- Known finding `aberrations:ensemble-mean-is-sum-w2I-over-n`: for non-unit weights the code's reduction of an
+aberration / CTF ensemble, `(1/n) Σ wᵢ fᵢ` (with `wᵢ` the intensity weights), is **not** the weighted mean
+`Σ wᵢ fᵢ / Σ wᵢ` the statement asks for. -/
+theorem ensemble_mean_ne_weighted_mean_counterexample :
+    ¬ ∀ ws fs : List Rat, meanList (List.zipWith (· * ·) ws fs) = weightedMean ws fs := by
+  intro h
+  have := h [1 / 4, 1] [1, 1]
+  revert this
+  decide +kernel
+
+/-- Known finding `envelope:ensemble-mean-ignores-distribution-weights`: the envelope / aperture transforms drop the
+weights (`unpacked, _ = _unpack_distributions(...)`), so their reduction is the plain mean of the members, which is not
+the weighted mean either. -/
+theorem unweighted_mean_ne_weighted_mean_counterexample :
+    ¬ ∀ ws fs : List Rat, meanList fs = weightedMean ws fs := by
+  intro h
+  have := h [1, 3] [0, 4]
+  revert this
+  decide +kernel
 
 /-! ### non-vacuity -/
 example : evalEnsemble (0 : Int) (1 : Int) (fun l => l.sum) [.dist [10, 20] [1, 2], .scalar 5, .dist [1, 2, 3] [1, 1, 1]]
